@@ -54,3 +54,21 @@ CORPUS = [
         expect=[('C16.K', 'size-from-the-number-of-parameter-objects')], mode='text'),
 ]
 CORPUS = [m for m in CORPUS if m.id != 'c16-stale-gradient']
+CORPUS += [
+    Mut('c16-cholesky-factor-kept-under-its-shape', 'torchtree/inference/hmc/hamiltonian.py', '', "                covariance_matrix=mass_matrix,\n            ).sample()\n        return momentum\n",
+        "                scale_tril=self._cholesky(mass_matrix),\n            ).sample()\n        return momentum\n\n    def _cholesky(self, mass_matrix):\n        if self._scale_tril is None or self._scale_tril.shape != mass_matrix.shape:\n            self._scale_tril = torch.linalg.cholesky(mass_matrix)\n        return self._scale_tril\n",
+        expect=[('C16.K', 'memo::torchtree.inference.hmc.hamiltonian.Hamiltonian._cholesky::self._scale_tril')], mode='text',
+        more=[dict(scope='', old="        self.joint = joint\n", new="        self.joint = joint\n        self._scale_tril = None\n", mode='text')],
+        note='after an adaptation step the momenta are still drawn with the factor of the old mass matrix'),
+    Mut('c16-benign-momentum-drawn-with-the-cholesky-factor', 'torchtree/inference/hmc/hamiltonian.py', '', "                covariance_matrix=mass_matrix,\n", "                scale_tril=torch.linalg.cholesky(mass_matrix),\n", benign=True, mode='text'),
+    Mut('c16-momentum-drawn-with-the-matrix-as-its-own-factor', 'torchtree/inference/hmc/hamiltonian.py', '', "                covariance_matrix=mass_matrix,\n", "                scale_tril=mass_matrix,\n",
+        expect=[('C16.K', 'Hamiltonian.sample_momentum::N(0,M)')], mode='text'),
+    Mut('c16-hamiltonian-served-from-the-cache', 'torchtree/inference/hmc/hamiltonian.py', '', "    def __call__(self, *args, **kwargs) -> Tensor:\n        # the value depends on the momentum (and mass matrix) given by the caller:\n        # it cannot be served from the cache of CallableModel\n        return self._call(*args, **kwargs)\n\n", "",
+        expect=[('C16.K', 'call-arguments::torchtree.inference.hmc.hamiltonian.Hamiltonian')], mode='text'),
+]
+CORPUS += [
+    Mut('c16-benign-kinetic-energy-by-einsum', 'torchtree/inference/hmc/hamiltonian.py', 'Hamiltonian.kinetic_energy', 'kinetic_energy = torch.dot(momentum, inverse_mass_matrix @ momentum) * 0.5',
+        'kinetic_energy = torch.einsum("...i,ij,...j->...", momentum, inverse_mass_matrix, momentum) * 0.5', benign=True),
+    Mut('c16-kinetic-energy-einsum-contracts-one-index-twice', 'torchtree/inference/hmc/hamiltonian.py', 'Hamiltonian.kinetic_energy', 'kinetic_energy = torch.dot(momentum, inverse_mass_matrix @ momentum) * 0.5',
+        'kinetic_energy = torch.einsum("...i,ij,...i->...", momentum, inverse_mass_matrix, momentum) * 0.5', expect=[('C16.K', 'Hamiltonian.kinetic_energy::half-p-Minv-p')]),
+]
